@@ -203,6 +203,7 @@ func runC15(r *Run) {
 	c15Shortage(r, s)
 	c15Order(r, s, apps)
 	c15Revalidation(r, s)
+	c15Imports(r)
 }
 
 // ---------------------------------------------------------------------------------------------
